@@ -337,6 +337,6 @@ def _rand_val(rng, R, depth):
     if depth > 0 and rng.random() < 0.25:
         return {"r": "list", "xs": [_rand_val(rng, R, depth - 1) for _ in range(rng.randrange(0, 3))]}
     v = dict(rng.choice(R))
-    if "pid" in v and v.get("dt") != "bool":
+    if "pid" in v and v.get("dt") != "bool" and 0 not in v.get("shape", []):  # empty arrays carry no content id
         v["pid"] = rng.randrange(1, 9)
     return v
